@@ -23,7 +23,7 @@ def queries(tier):
     for (T, R, B, blk, K) in cells:
         maxops = R + 3 + 2
         qs.append(dict(name='workers_T%d_R%d_%s%d_K%d' % (T, R, 'blk' if B else 'one', blk, K), unit='tools', harness='h_workers.c',
-                       defs={'T': T, 'RANGE': R, 'BLOCKS': B, 'BLK': blk, 'ROUNDS': K, 'MAXOPS': 3 * R + 4}, unwind=R + 3,
+                       defs={'T': T, 'RANGE': R, 'BLOCKS': B, 'BLK': blk, 'ROUNDS': K, 'MAXOPS': 3 * R + 4}, unwind=max(R + 3, K + 2),
                        unwindset=','.join('harness.%d:%d' % (i, 3 * R + 6) for i in range(12)), timeout=1800, mem_gb=8,
                        desc='%d workers of %s over %d values, block %d: exactly-once / hit semantics for every schedule with <= %d context switches per thread' % (T, 'parallel_range_blocks' if B else 'parallel_range', R, blk, K - 1),
                        bounds='T=%d range=%d block=%d rounds=%d' % (T, R, blk, K)))
@@ -33,7 +33,7 @@ def queries(tier):
                        defs={'T': T, 'RANGE': R, 'BLOCKS': B, 'BLK': blk}, unwind=max(R, T, 4) + 4, timeout=900, mem_gb=8, object_bits=13,
                        desc='real %s body (thread creation, thread_num, join, result) with std::thread modelled as run-at-creation; %d threads, %d values, <=1 hit' % ('parallel_range_blocks' if B else 'parallel_range', T, R),
                        bounds='T=%d range=%d block=%s, sequential thread schedule' % (T, R, blk or 'symbolic in [1,4] (non-dividing sizes must be rejected)')))
-    mc = [(2, 0, 0), (2, 2, 1), (2, 2, 2), (2, 3, 2)] if tier == 'quick' else [(T, R, 0) for T in (1, 2, 3) for R in (0, 1, 2, 3, 4)]
+    mc = [(2, 0, 0), (2, 2, 1), (2, 2, 2), (2, 3, 2)] if tier == 'quick' else ([(T, R, 0) for T in (1, 2) for R in (0, 1, 2, 3, 4)] + [(3, R, 0) for R in (0, 1, 2)] + [(3, R, b) for R in (3, 4) for b in (1, 2, 3)])
     for (T, R, blk) in mc:
         qs.append(dict(name='multi_T%d_R%d_%s' % (T, R, 'blk%d' % blk if blk else 'blksym'), unit='launch', harness='h_launch.c',
                        defs={'T': T, 'RANGE': R, 'BLOCKS': 1, 'BLK': blk, 'MULTI': 1}, unwind=max(R, T, 4) + 4, timeout=1200, mem_gb=20, object_bits=13,
